@@ -1161,7 +1161,7 @@ func ruleScopeIncludeWalk(c *Ctx) []Obligation {
 		if _, isW := walkers[fn]; isW {
 			used = append(used, fn)
 		}
-		eachInstr(fn, func(in ssa.Instruction) {
+		c.eachInstrDeep(fn, func(in ssa.Instruction) {
 			if ci, isC := in.(ssa.CallInstruction); isC {
 				if cal := ci.Common().StaticCallee(); cal != nil {
 					if _, isW := walkers[cal]; isW && cal != fn {
